@@ -147,9 +147,40 @@ def run(ctx):
     tz_diff = tzprobe.differing(tz_ops, zones=tzprobe.ZONES[:3])
     for dd in tz_diff[:3]:
         prop_bad.append({"batch": "time zone probe", "what": "the batch read depends on the process's local time zone (TZ)", **dd})
-    res, err = _records.run_coq(ctx, "C18", rcases=rcases)
+    # prepared batches whose stored header fields are NOT the ones a new batch would derive (a different base timestamp or
+    # base offset, another crc / length / last offset delta): writing copies the stored fields verbatim and encodes the
+    # records relative to the stored bases - compared with the model and with the independent encoder
+    pcases = []
+    n_p = 0
+    for (label, what), (data, o) in zip(meta, rcases):
+        if what != "identity" or o[0] != "ok" or len(data) > 3000 or n_p >= (40 if quick else 400):
+            continue
+        n_p += 1
+        b0 = o[1]
+        for k in range(3):
+            b = dict(b0, records=[dict(x) for x in b0["records"]])
+            f = r.choice(["base_timestamp", "base_offset", "crc", "last_offset_delta", "batch_length", "max_timestamp", "producer_epoch"])
+            b[f] = b[f] + r.choice([-1000, -1, 1, 5, 1000]) if f not in ("crc",) else (b[f] + 1) % 2**32
+            if f == "base_offset" and b[f] < 0:
+                b[f] = 0
+            try:
+                w = rc.impl_write(rc.py_batch(b))
+            except Exception as e:  # noqa  (value not constructible)
+                continue
+            pcases.append((b, w))
+            hdr2 = {kk: b[kk] for kk in b if kk != "records"}
+            try:
+                want = refbatch.enc_prepared(hdr2, [dict(x, headers=[tuple(h) for h in x["headers"]]) for x in b["records"]])
+            except Exception:  # noqa  (a delta outside the encoder's widths)
+                want = None
+            if want is not None and not (w[0] == "ok" and w[1] == want):
+                prop_bad.append({"batch": label, "what": f"writing a prepared batch whose stored {f} was changed does not copy the stored header "
+                                 "fields / encode the records relative to the stored bases", "got": w[1].hex()[:300] if w[0] == "ok" else str(w[1]),
+                                 "expected": want.hex()[:300]})
+    res, err = _records.run_coq(ctx, "C18", rcases=rcases, pcases=pcases)
     viol, known = [], []
     failing = [] if res is None else res.get("r", [])
+    failing_p = [] if res is None else res.get("p", [])
     if res is None:
         viol.append({"kind": "correspondence", "what": "model evaluation failed", "detail": err})
     kf = {f["id"]: f for f in common.known_findings()["findings"]}
@@ -168,12 +199,16 @@ def run(ctx):
                      "failing_input_found": False, "n_disagreements": len(failing),
                      "cases": [{"batch": meta[i][0], "damage": meta[i][1], "input": rcases[i][0].hex()[:600],
                                 "impl": str(rcases[i][1])[:300]} for i in failing[:3]]})
+    if failing_p and not any(v.get("kind") == "property" for v in viol):
+        viol.append({"kind": "correspondence", "observation": "C18: bytes written for a prepared batch vs Records/Batch.v write_prepared_batch",
+                     "failing_input_found": False, "n_disagreements": len(failing_p),
+                     "cases": [{"batch": {k: v for k, v in pcases[i][0].items() if k != "records"}, "impl": str(pcases[i][1])[:300]} for i in failing_p[:3]]})
     kinds = {}
     for _, k in meta:
         kk = k.split("@")[0]
         kinds[kk] = kinds.get(kk, 0) + 1
     cov = {
-        "time_zone_probe": {"operations": len(tz_ops), "differences": len(tz_diff)},
+        "time_zone_probe": {"operations": len(tz_ops), "differences": len(tz_diff)}, "prepared_batch_writes": len(pcases),
         "evaluations": len(rcases), "distinct_nontrivial": len({c[0] for c in rcases}),
         "traces_validated_against_impl": len(rcases) - len(failing),
         "rule": "reference-encoded batches (independent encoder) + the four real-broker fixtures x (compound damage [bit flip + inflated declared length / cut; patched record count + cut], time-zone probe, identity with trailing "
